@@ -397,7 +397,90 @@ fn window_de(a: u64, b: u64, c: u64) -> [u64; 2] {
         [seen, after]
     }
 }
+/// The closure's result is returned unharmed even when the calling function is a leaf that keeps
+/// its locals below the stack pointer (red zone): the flag-reading asm inside the inlined
+/// without_interrupts must not scribble there.  A local array is filled, summed word by word
+/// inside two nested critical sections, and the words the closure saw are returned.
+#[inline(never)]
+fn redzone_words(seed: u64) -> [u64; 16] {
+    use std::ptr::{read_volatile, write_volatile};
+    let mut scratch = [0u64; 16];
+    for i in 0..16 {
+        unsafe { write_volatile(&mut scratch[i], seed.wrapping_add(i as u64)) };
+    }
+    interrupts::without_interrupts(|| {
+        interrupts::without_interrupts(|| {
+            let mut seen = [0u64; 16];
+            for i in 0..16 {
+                seen[i] = unsafe { read_volatile(&scratch[i]) };
+            }
+            seen
+        })
+    })
+}
+#[inline(never)]
+fn redzone_sum(seed: u64) -> u64 {
+    use std::ptr::{read_volatile, write_volatile};
+    let mut scratch = [0u64; 16];
+    for i in 0..16 {
+        unsafe { write_volatile(&mut scratch[i], seed.wrapping_add(i as u64)) };
+    }
+    interrupts::without_interrupts(|| {
+        interrupts::without_interrupts(|| {
+            let mut sum = 0u64;
+            for i in 0..16 {
+                sum = sum.wrapping_add(unsafe { read_volatile(&scratch[i]) });
+            }
+            sum
+        })
+    })
+}
+
+/// the same with are_enabled() only (the flag-reading asm directly in a leaf function)
+#[inline(never)]
+fn redzone_are_enabled(seed: u64) -> (u64, u64) {
+    use std::ptr::{read_volatile, write_volatile};
+    let mut scratch = [0u64; 16];
+    for i in 0..16 {
+        unsafe { write_volatile(&mut scratch[i], seed.wrapping_add(i as u64)) };
+    }
+    let e = interrupts::are_enabled();
+    let mut sum = 0u64;
+    for i in 0..16 {
+        sum = sum.wrapping_add(unsafe { read_volatile(&scratch[i]) });
+    }
+    (sum, e as u64)
+}
+#[inline(never)]
+fn redzone_single(seed: u64) -> u64 {
+    use std::ptr::{read_volatile, write_volatile};
+    let mut scratch = [0u64; 16];
+    for i in 0..16 {
+        unsafe { write_volatile(&mut scratch[i], seed.wrapping_add(i as u64)) };
+    }
+    interrupts::without_interrupts(|| {
+        let mut sum = 0u64;
+        for i in 0..16 {
+            sum = sum.wrapping_add(unsafe { read_volatile(&scratch[i]) });
+        }
+        sum
+    })
+}
+
 fn run_windows(out: &mut Out, r: &mut Rng) {
+    for k in 0..12u64 {
+        let seed = if k < 4 { [1u64, 3, 0x1234_5678_9abc_def1, u64::MAX][k as usize] } else { r.next() };
+        set_if(k % 2);
+        sync_overlay();
+        cpu::drain();
+        let words = redzone_words(seed);
+        let sum = redzone_sum(seed);
+        cpu::drain();
+        let (sum2, en) = redzone_are_enabled(seed);
+        let sum3 = redzone_single(seed);
+        cpu::drain();
+        out.emit(Ev::new("closure_result").w("seed", seed).words("words", &words).w("sum", sum).w("sum2", sum2).w("sum3", sum3).n("en", en as i64).n("if", k as i64 % 2));
+    }
     for i in 0..24u64 {
         let (a, b, c) = (1 + r.below(1000), 2000 + r.below(1000), 4000 + r.below(1000));
         let init = i % 2;
@@ -634,7 +717,7 @@ pub fn run_flush(out: &mut Out, seed: u64, n: u64) {
         }
         out.emit(Ev::new("token_flush").w("page", st).n("s", s as i64).raw("instrs", &instrs()));
     }
-    for &c in &[0x1000u64, 0x2000 | 0x18, 0x000f_ffff_ffff_f000] {
+    for &c in &[0x1000u64, 0x2000 | 0x18, 0x000f_ffff_ffff_f000, 0x5000 | 0xabc, 0x7000 | 0xfff, 0x9000 | 0x001, 0x3000 | 0x7e7] {
         cpu::CR[3].store(c, Ordering::SeqCst);
         MapperFlushAll::new().flush_all();
         out.emit(Ev::new("flush_all").w("cr3", c).raw("instrs", &instrs()).w("after", cpu::CR[3].load(Ordering::SeqCst)));
